@@ -234,30 +234,62 @@ def _const_env(stmts):
             continue
         rv = st["rv"]
         val = None
+        nested = {}
         if rv["k"] == "use":
             o = rv["op"]
             if o.get("k") == "const" and "int" in o:
                 val = o["int"]
             elif o.get("k") in ("copy", "move") and not o["place"]["p"]:
                 val = env.get(o["place"]["l"])
+                # what is known about the parts of the copied value goes with it
+                for k_, v_ in list(env.items()):
+                    if isinstance(k_, tuple) and k_[0] == o["place"]["l"]:
+                        nested[(pl["l"],) + k_[1:]] = v_
+            elif o.get("k") in ("copy", "move"):
+                # a payload read: `(x as Ok).0` of a value built as Ok(<known>) on this path
+                pr = [e for e in o["place"]["p"] if e.get("k") != "deref"]
+                key = None
+                if len(pr) == 2 and pr[0].get("k") == "downcast" and pr[1].get("k") == "field":
+                    key = (o["place"]["l"], pr[0].get("variant"), pr[1].get("name"))
+                elif len(pr) == 1 and pr[0].get("k") == "field":
+                    key = (o["place"]["l"], None, pr[0].get("name"))
+                if key is not None:
+                    val = env.get(key)
+                    for k_, v_ in list(env.items()):
+                        if isinstance(k_, tuple) and len(k_) > 3 and k_[:3] == key:
+                            nested[(pl["l"],) + k_[3:]] = v_
         elif rv["k"] == "unop" and rv["op"] == "Not":
             o = rv["x"]
             if o.get("k") in ("copy", "move") and not o["place"]["p"]:
                 v = env.get(o["place"]["l"])
                 if v is not None and not isinstance(v, tuple):
                     val = 0 if v else 1
-        elif rv["k"] == "aggregate" and rv.get("agg") == "adt" and rv.get("variant"):
-            val = ("V", rv["variant"])
+        elif rv["k"] == "aggregate" and rv.get("agg") in ("adt", "tuple"):
+            if rv.get("agg") == "adt" and rv.get("variant"):
+                val = ("V", rv["variant"])
+            vname = rv.get("variant") if rv.get("agg") == "adt" else None
+            for f in rv["fields"]:
+                fo = f["op"]
+                if fo.get("k") in ("copy", "move") and not fo["place"]["p"]:
+                    v_ = env.get(fo["place"]["l"])
+                    if v_ is not None:
+                        nested[(pl["l"], vname, f["name"])] = v_
+                    for k_, v2 in list(env.items()):
+                        if isinstance(k_, tuple) and k_[0] == fo["place"]["l"]:
+                            nested[(pl["l"], vname, f["name"]) + k_[1:]] = v2
         elif rv["k"] == "discriminant" and not rv["place"]["p"]:
             v = env.get(rv["place"]["l"])
             if isinstance(v, tuple):
                 for idx, name in (rv.get("variants") or {}).items():
                     if name == v[1]:
                         val = int(idx)
+        for k_ in [k_ for k_ in env if isinstance(k_, tuple) and k_[0] == pl["l"]]:
+            del env[k_]
         if val is None:
             env.pop(pl["l"], None)
         else:
             env[pl["l"]] = val
+        env.update(nested)
     return env
 
 
